@@ -211,6 +211,10 @@ func (o gOp) String() string {
 	case gAddDeferredBatch:
 		var s []string
 		for _, b := range o.Batch {
+			if b.Kind == gRemove {
+				s = append(s, fmt.Sprintf("remove %s", gPool[b.V]))
+				continue
+			}
 			s = append(s, fmt.Sprintf("%s <- %s", gPool[b.V], depNames(b.Deps)))
 		}
 		return "Deferred{" + strings.Join(s, "; ") + "}+DetectCycles"
@@ -306,6 +310,11 @@ func decodeGraphCase(tier string, idx int, tape *Tape) *graphCase {
 			b := gOp{Kind: gAddDeferredBatch}
 			nb := 1 + tape.Choose(StOps, 4)
 			for j := 0; j < nb; j++ {
+				if j > 0 && tape.Choose(StOps, 5) == 0 {
+					// a removal before the cycle check has completed the deferred adds
+					b.Batch = append(b.Batch, gOp{Kind: gRemove, V: tape.Choose(StOps, c.Pool)})
+					continue
+				}
 				b.Batch = append(b.Batch, gOp{V: tape.Choose(StOps, c.Pool), Deps: drawDeps()})
 			}
 			c.Ops = append(c.Ops, b)
@@ -627,6 +636,13 @@ func runGraphCaseOn(c *graphCase, out *RunOut, g0 *simgraph.Graph) []Violation {
 			}
 		case gAddDeferredBatch:
 			for _, b := range op.Batch {
+				if b.Kind == gRemove {
+					k := gPool[b.V]
+					g.RemoveProvider(k.T.RT(), k.Key, k.Group)
+					ref.remove(b.V)
+					out.Reach["graph.remove_in_deferred_window"]++
+					continue
+				}
 				if err := g.AddProviderDeferred(mkProvider(gPool[b.V], b.Deps)); err != nil {
 					add("C19", "C19.add", "deferred-error", "step %d: AddProviderDeferred(%s) returned %v", step, gPool[b.V], err)
 				}
